@@ -19,7 +19,7 @@ Reference models
 
 Enumeration (all exhaustive, deterministic order, simplest first)
     alternatives, alt_lists, enum_sized, count_sized           -- size-bounded spaces
-    family_follow, family_prefix, family_hidden                -- directed families
+    family_follow, family_follow2, family_prefix, family_split, family_hidden  -- directed families
 """
 
 import itertools
@@ -53,9 +53,10 @@ def letters_cfg(letters):
 
 
 def kw_cfg():
-    """Keyword + synonym configuration: WORD (two different values), keyword ``if`` -> IF, PLUS -> '+'."""
-    return TokCfg("kw", r"(?P<SPACE>\s+)|(?P<WORD>[a-z]+)|(?P<PLUS>\+)",
-                  [("WORD", "u"), ("WORD", "vv"), ("IF", "if"), ("+", "+")],
+    """Keyword + synonym configuration: WORD (two different values, one of them the keyword's spelling in
+    another case), keyword ``if`` -> IF, PLUS -> '+'."""
+    return TokCfg("kw", r"(?P<SPACE>\s+)|(?P<WORD>[a-zA-Z]+)|(?P<PLUS>\+)",
+                  [("WORD", "u"), ("WORD", "If"), ("IF", "if"), ("+", "+")],
                   synonyms={"PLUS": "+"}, keywords={("WORD", "if"): "IF"})
 
 
@@ -489,11 +490,12 @@ def family_follow(terms, max_len=3, need_nt=True, canonical=True, rich_slice=Non
 def family_follow2(terms, rich_slice=None, rich="E", second="A", helper="N"):
     """C02 directed family "two rich symbols + one helper".
 
-    E: 1-2 alternatives of length <= 3 over {A, N} + terms, each containing a non-terminal
+    E: 1-2 alternatives of length <= 2 over {A, N} + terms, each containing a non-terminal
     A: 1-2 alternatives of length <= 2 over {N} + terms
     N: eps, or eps and one terminal in both orders
+    (chains of FOLLOW dependencies: N ends A, A ends E)
     """
-    riches = family_follow_rich_lists((second, helper), terms, 3, True)
+    riches = family_follow_rich_lists((second, helper), terms, 2, True)
     if rich_slice is not None:
         riches = riches[rich_slice[0]::rich_slice[1]]
     a_alts = alternatives((helper,) + tuple(terms), 2)
@@ -546,6 +548,29 @@ def family_prefix(terms, nts=("E", "A"), full=True):
                             continue
                         for ad in a_defs:
                             yield ((e, tuple(alts)), (a, ad))
+
+
+def family_split(terms, nts=("E", "A")):
+    """C01 directed family "shared leading part, not adjacent": E -> lead r1 | middle | lead r2.
+
+    The unrelated middle alternative keeps factorization from merging the two alternatives, so the parser
+    has to roll back from the first to the third with children already collected (a terminal, a helper
+    matched by its empty production, a helper that consumed a token).
+    """
+    t0, t1 = terms[0], terms[1]
+    e, a = nts
+    leads = [(a,), (a, t0), (t0, a), (a, a), (t0,), (t0, t1)]
+    rems = [(), (t0,), (t1,), (t0, t0), (t0, t1), (t1, t0), (t1, t1), (a,)]
+    middles = [(t1,), (), (t1, t1), (a, t1, t1)]
+    a_defs = [((),), ((), (t1,)), ((t1,), ()), ((t0,), ()), ((t1,),)]
+    for lead in leads:
+        for r1, r2 in itertools.permutations(rems, 2):
+            for mid in middles:
+                alts = (lead + r1, mid, lead + r2)
+                if len(set(alts)) != 3:
+                    continue
+                for ad in a_defs:
+                    yield ((e, alts), (a, ad))
 
 
 def family_hidden(names, terms):
